@@ -87,7 +87,7 @@ Proof.
   intros E. injection E as <-. rewrite bag_bins_app, Hk. unfold bag_bins. cbn. rewrite andb_true_r. exact Hc.
 Qed.
 
-Lemma convert_context_bins y ib f c m : convert_context y ib f = Ok (c, m) -> ctx_bins c = true /\ m_is_binary m = false.
+Lemma convert_context_bins y ib f root c m : convert_context y ib f root = Ok (c, m) -> ctx_bins c = true /\ m_is_binary m = false.
 Proof.
   unfold convert_context. intros H.
   repeat match type of H with rbind ?X _ = _ => destruct X; cbn [rbind] in H; try discriminate end.
@@ -100,21 +100,21 @@ Proof.
   unfold add_modules. intros Hk HF.
   apply (fold_rbind_inv (fun x => bag_bins x = true)
            (fun b0 y => fold_left (fun acc c => rbind acc (fun b1 =>
-                          rbind (convert_module bd y c is_binary (ld_file d) defaults) (add_module b1)))
+                          rbind (convert_module bd y c is_binary (ld_file d) (ld_root d) defaults) (add_module b1)))
                           (contexts_of (ym_context y)) (Ok b0))) with (l := mods) (acc := Ok b); [|intros a E; injection E as <-; exact Hk|exact HF].
   intros a y a' Ha HF2.
   apply (fold_rbind_inv (fun x => bag_bins x = true)
-           (fun b1 c => rbind (convert_module bd y c is_binary (ld_file d) defaults) (add_module b1)))
+           (fun b1 c => rbind (convert_module bd y c is_binary (ld_file d) (ld_root d) defaults) (add_module b1)))
     with (l := contexts_of (ym_context y)) (acc := Ok a); [|intros a0 E; injection E as <-; exact Ha|exact HF2].
-  intros a0 c a1 Ha0 E. destruct (convert_module bd y c is_binary (ld_file d) defaults) as [m| | |] eqn:Ec; cbn [rbind] in E; try discriminate.
+  intros a0 c a1 Ha0 E. destruct (convert_module bd y c is_binary (ld_file d) (ld_root d) defaults) as [m| | |] eqn:Ec; cbn [rbind] in E; try discriminate.
   apply (add_module_bins a0 m a1 Ha0); [|exact E].
-  rewrite (proj1 (convert_module_relpath _ _ _ _ _ _ _ Ec)). cbn. apply orb_true_r.
+  rewrite (proj1 (convert_module_relpath _ _ _ _ _ _ _ _ Ec)). cbn. apply orb_true_r.
 Qed.
 
 Theorem load_bins_ok t pf bd b : load t pf bd = Ok b -> bag_bins b = true.
 Proof.
   unfold load. intros HL.
-  destruct (load_files _ t [(pf, None)] 0 []) as [[docs fs]| | |]; cbn [rbind] in HL; try discriminate.
+  destruct (load_files _ t [(pf, (None, None))] 0 []) as [[docs fs]| | |]; cbn [rbind] in HL; try discriminate.
   match type of HL with rbind ?X _ = _ => destruct X as [[b0 cms]| | |] eqn:E1 end; cbn [rbind] in HL; try discriminate.
   assert (K0 : bag_bins b0 = true /\ forall m, In m cms -> m_is_binary m = false).
   { refine (fold_rbind_inv (fun p : bag * list module => bag_bins (fst p) = true /\ forall m, In m (snd p) -> m_is_binary m = false) _ _ docs (Ok ([], [])) (b0, cms) _ E1);
@@ -126,9 +126,9 @@ Proof.
     refine (fold_rbind_inv (fun p : bag * list module => bag_bins (fst p) = true /\ forall m, In m (snd p) -> m_is_binary m = false) _ _ _ (Ok (bb, cmsb)) (bb', cmsb') _ Hlb);
       [|intros a E; injection E as <-; exact Hb].
     intros [bc cmsc] y [bc' cmsc'] Hc Hy. cbn [fst snd] in *.
-    destruct (convert_context y (snd lb || yc_is_builder y) (ld_file d)) as [[c m]| | |] eqn:Ecc; cbn [rbind] in Hy; try discriminate.
+    destruct (convert_context y (snd lb || yc_is_builder y) (ld_file d) (ld_root d)) as [[c m]| | |] eqn:Ecc; cbn [rbind] in Hy; try discriminate.
     destruct (add_context bc c) as [bn| | |] eqn:Ea; cbn [rbind] in Hy; try discriminate.
-    injection Hy as <- <-. destruct (convert_context_bins _ _ _ _ _ Ecc) as [Hcb Hmb]. split.
+    injection Hy as <- <-. destruct (convert_context_bins _ _ _ _ _ _ Ecc) as [Hcb Hmb]. split.
     - exact (add_context_bins _ _ _ (proj1 Hc) Hcb Ea).
     - intros m0 Hm0. apply in_app_or in Hm0. destruct Hm0 as [Hm0|[<-|[]]]; [exact (proj2 Hc m0 Hm0)|exact Hmb]. }
   destruct K0 as [K0 Kc].
